@@ -137,6 +137,27 @@ def run(rep, props, replay=None):
                             P = np.asarray(f.transform(None, method="PACE"), float)
                         if P.shape != S0.shape or not np.all(np.isfinite(P)):
                             rep.violation("PACE scores are not finite / have the wrong shape", {**opts, "X": C.hexf(X), "x": C.hexf(x)})
+                        else:
+                            # PACE is a score method too: stored == explicit (normalize=False: F2 is about the explicit path
+                            # under normalisation), and scoring twice gives the same scores (no state is consumed)
+                            with warnings.catch_warnings():
+                                warnings.simplefilter("ignore")
+                                cov_before = np.array(f.covariance.values, float, copy=True)
+                                P2 = np.asarray(f.transform(None, method="PACE"), float)
+                                Pe = np.asarray(f.transform(d, method="PACE", method_smoothing=None), float) if not normalize else None
+                                P3 = np.asarray(f.transform(None, method="PACE"), float)
+                            badp = []
+                            sp = max(1.0, float(np.max(np.abs(P))))
+                            if not (np.array_equal(P2, P) and np.array_equal(P3, P)):
+                                badp.append(f"PACE scores of the stored data change from call to call (max {np.max(np.abs(P3 - P)):.3g})")
+                            if Pe is not None and np.max(np.abs(Pe - P)) > 1e-8 * sp:
+                                badp.append(f"PACE scores of the training curves passed explicitly differ from those of the stored "
+                                            f"data (max {np.max(np.abs(Pe - P)):.3g})")
+                            if not np.array_equal(np.asarray(f.covariance.values, float), cov_before):
+                                badp.append("transform(method='PACE') changes the fitted covariance")
+                            rep.case((X.tobytes(), method, normalize, ncomp, "pace"), kind=f"PACE/{method}/normalize={normalize}")
+                            if badp:
+                                rep.violation("PACE: " + "; ".join(badp), {**opts, "X": C.hexf(X), "x": C.hexf(x)})
                     except Exception as e:  # noqa: BLE001
                         rep.notes.append(f"PACE raised {type(e).__name__}: {e}"[:160])
         if i % 3 == 0:
